@@ -286,8 +286,8 @@ namespace verif {
     r.counters["sched_decisions"] += int64_t(out.stats.decisions);
     r.counters["sched_switches"] += int64_t(out.stats.switches);
     r.counters["sched_blocked_on_mutex"] += int64_t(out.stats.blocked);
-    static const char *site_names[] = {"", "site_lock_excl", "site_lock_shared", "site_lock_recursive", "site_unlock", "site_op_begin", "site_op_end", "site_callback", "site_file", "site_blocked"};
-    for (int k = 1; k <= 9; ++k) {
+    static const char *site_names[] = {"", "site_lock_excl", "site_lock_shared", "site_lock_recursive", "site_unlock", "site_op_begin", "site_op_end", "site_callback", "site_file", "site_blocked", "site_hint"};
+    for (int k = 1; k <= 10; ++k) {
       r.counters[site_names[k]] += int64_t(out.stats.site_count[k]);
     }
     r.counters[std::string("mode_") + mode] += 1;
